@@ -15,7 +15,7 @@ RULE = ("seeded random FloScript programs (1-2 active framers, an optional plain
         "Builder, run for a few ticks, and then re-built once per framer, frame, named actor and clone tag with that one name replaced "
         "by a fresh token; actions placed in every context (recur, exit, rexit, renter, precur); clones reared at run time by another frame than the one they are reared into, under every single renaming; distinct = distinct (program text, renamed entity); non-trivial = the program built and at least one reference "
         "site's path is expected to follow the renaming")
-RULE = __import__("vf.core", fromlist=["rule_add"]).rule_add(RULE, 'also a deed with a registered ioinit default (`VfGaugeLevel`, with and without `per`), all builds in one process')
+RULE = __import__("vf.core", fromlist=["rule_add"]).rule_add(RULE, 'also a deed with a registered ioinit default (`VfGaugeLevel`, with and without `per`), all builds in one process; actors also named by `cum name` beginning with a small letter')
 META = {"engine": "A floscript (build, resolve, short run)",
         "technique": "metamorphic runtime check: resolved share paths of tagged reference sites before/after each single renaming",
         "level_text": "Every reference site ends in a unique tail segment, so the share it resolved to is read both from the built act's "
